@@ -798,12 +798,18 @@ impl BuiltInFunction {
                     format!("`{power}` is an invalid power for int bases (valid >= 0)")
                 })?;
 
-                let result: Primitive = match this {
-                    Primitive::Int(i32) => Primitive::BigInt(i32.pow(power_non_fp) as i128),
-                    Primitive::BigInt(i128) => Primitive::BigInt(i128.pow(power_non_fp)),
-                    Primitive::Byte(u8) => Primitive::BigInt(u8.pow(power_non_fp) as i128),
+                // the result is a bigint: compute in 128 bits, whatever the width of the base
+                let base: i128 = match this {
+                    Primitive::Int(i32) => *i32 as i128,
+                    Primitive::BigInt(i128) => *i128,
+                    Primitive::Byte(u8) => *u8 as i128,
                     bad => unreachable!("{bad}"),
                 };
+
+                let result = Primitive::BigInt(
+                    base.checked_pow(power_non_fp)
+                        .with_context(|| format!("`{base}` to the power of {power_non_fp} does not fit in a bigint"))?,
+                );
 
                 Ok((Some(result), None))
             }
